@@ -189,6 +189,71 @@ func init() {
 		}
 		nameBad, nameDot, nameDots := m[1], oneByte("validateTargetName leading character", m[2]), m[3]
 
+		// --- relative and subrepo exclude expressions, subrepo packages (follow-up) ---------------------
+		// These are pinned with their literals: the model (parse_parts, parse_subrepo, parse_exclude) writes the
+		// bytes ':' '@' '/' out, so any change of shape or literal here fails closed.
+		matchShape("parseMaybeRelativeBuildLabel", bodyText(fsL, findFunc(fl, "", "parseMaybeRelativeBuildLabel")), `{
+			startsWithColon := strings.HasPrefix(target, ":")
+			if !startsWithColon {
+				if !strings.HasPrefix(target, "//") && strings.HasPrefix(target, "/") { target = "/" + target }
+				if label, err := TryParseBuildLabel(target, "", ""); err == nil || strings.HasPrefix(target, "//") { return label, err } }
+			if subdir == "" { MustFindRepoRoot()
+			subdir = InitialPackagePath }
+			if startsWithColon { return TryParseBuildLabel(target, subdir, "") }
+			return TryParseBuildLabel("//"+filepath.Join(subdir, target), "", "") }`)
+
+		matchShape("TryParseBuildLabel", bodyText(fsL, findFunc(fl, "", "TryParseBuildLabel")), `{
+			if pkg, name, subrepo := ParseBuildLabelParts(target, currentPath, subrepo); name != "" {
+				return BuildLabel{PackageName: pkg, Name: name, Subrepo: subrepo}, nil }
+			return BuildLabel{}, fmt.Errorf("Invalid build label: %s", target) }`)
+
+		matchShape("ParseBuildLabelParts", bodyText(fsL, findFunc(fl, "", "ParseBuildLabelParts")), `{
+			if len(target) < 2 { return "", "", ""
+			} else if target[0] == ':' {
+				if !validateTargetName(target[1:]) { return "", "", "" }
+				return currentPath, target[1:], ""
+			} else if target[0] == '@' { return parseBuildLabelSubrepo(target[1:], currentPath)
+			} else if strings.HasPrefix(target, "///") { return parseBuildLabelSubrepo(target[3:], currentPath)
+			} else if target[0] != '/' || target[1] != '/' { return "", "", ""
+			} else if idx := strings.IndexRune(target, ':'); idx != -1 {
+				pkg := target[2:idx]
+				name := target[idx+1:]
+				if !validatePackageName(pkg) || !validateTargetName(name) || name == "..." { return "", "", "" }
+				return pkg, name, subrepo
+			} else if !validatePackageName(target[2:]) { return "", "", "" }
+			if strings.HasSuffix(target, "/...") { return strings.TrimRight(target[2:len(target)-3], "/"), "...", ""
+			} else if idx := strings.LastIndexByte(target, '/'); idx != -1 { return target[2:], target[idx+1:], subrepo }
+			return target[2:], target[2:], subrepo }`)
+
+		matchShape("parseBuildLabelSubrepo", bodyText(fsL, findFunc(fl, "", "parseBuildLabelSubrepo")), `{
+			idx := strings.Index(target, "//")
+			if idx == -1 {
+				if idx = strings.IndexByte(target, ':'); idx == -1 {
+					if idx := strings.LastIndexByte(target, '/'); idx != -1 { return "", target[idx+1:], target }
+					return "", target, target } }
+			if strings.ContainsRune(target[:idx], ':') { return "", "", "" }
+			pkg, name, _ := ParseBuildLabelParts(target[idx:], currentPath, "")
+			return pkg, name, target[:idx] }`)
+
+		m = matchShape("packageKey.String", bodyText(fsL, findFunc(fl, "packageKey", "String")), `{
+			if key.Subrepo != §S { return §S + key.Subrepo + §S + key.Name }
+			return key.Name }`)
+		if m[0] != "" {
+			failShape("packageKey.String compares the subrepo with %q, expected the empty string", m[0])
+		}
+		keyPrefix, keyInfix := m[1], m[2]
+
+		fsG, fg := parseFile("src/core/graph.go")
+		matchShape("BuildGraph.PackageMap", bodyText(fsG, findFunc(fg, "BuildGraph", "PackageMap")), `{
+			packages := map[string]*Package{}
+			for _, pkg := range graph.packages.Values() { packages[packageKey{Subrepo: pkg.SubrepoName, Name: pkg.Name}.String()] = pkg }
+			return packages }`)
+		matchShape("BuildGraph.PackageByLabel", bodyText(fsG, findFunc(fg, "BuildGraph", "PackageByLabel")), `{ return graph.Package(label.PackageName, label.Subrepo) }`)
+		matchShape("BuildGraph.Package", bodyText(fsG, findFunc(fg, "BuildGraph", "Package")), `{ return graph.packages.Get(packageKey{Name: name, Subrepo: subrepo}) }`)
+		matchShape("BuildGraph.AddPackage", bodyText(fsG, findFunc(fg, "BuildGraph", "AddPackage")), `{
+			key := packageKey{Name: pkg.Name, Subrepo: pkg.SubrepoName}
+			if !graph.packages.Add(key, pkg) { panic("Attempt to re-add existing package: " + key.String()) } }`)
+
 		// the two reserved suffixes
 		var buildSuf, testSuf string
 		for _, file := range []string{"src/core/build_target.go", "src/core/build_label.go", "src/core/utils.go", "src/core/build_env.go"} {
@@ -239,6 +304,8 @@ func init() {
 			"Definition name_bad_chars : string := " + coqString(nameBad) + ".\n" +
 			"Definition name_hidden_byte : N := " + nameDot + "%N.\n" +
 			"Definition name_hidden_exception : string := " + coqString(nameDots) + ".\n" +
-			"Definition reserved_suffixes : list string := " + coqStringList([]string{buildSuf, testSuf}) + ".\n"
+			"Definition reserved_suffixes : list string := " + coqStringList([]string{buildSuf, testSuf}) + ".\n" +
+			"Definition package_key_prefix : string := " + coqString(keyPrefix) + ".\n" +
+			"Definition package_key_infix : string := " + coqString(keyInfix) + ".\n"
 	}
 }
